@@ -44,6 +44,7 @@ REQUIRED = [
     'range_typeError_iff',
     'valid_approval_perm', 'validScoreBase_perm', 'valid_enumscore_perm', 'valid_range_perm', 'accept_order_independent',
     'valid_ranked_perm', 'accept_ranked_order_independent', 'ranked_default_names', 'approval_names',
+    'eliminator_simple_never_removes',
 ]
 UNPROVED = [
     'validate_iff_valid_ranked (false of the code: a mutable set at a rank is accepted; see _partial/_witness)',
@@ -1097,6 +1098,29 @@ def exhaustive():
     for val in _ex_vals():
         for o in objs:
             yield mk_case(val, o, ['exhaustive'])
+    # the filter: every dictionary of at most three ballots (in every order) from a pool of six, per vote type
+    basic = {'k': 'basic', 'blank': False}
+    person = {'k': 'person', 'indep': True, 'blank': False}
+    P0, B0 = Cd('person_party', 0), Cd('blank', 0)
+    pools = [
+        ({'vt': 'simple', 'nom': basic}, [S(0), S(1), P0, {'t': [S(0)]}, N(1), None]),
+        ({'vt': 'simple', 'nom': person}, [P0, Cd('person_indep', 0), Cd('person_party', 1)]),
+        ({'vt': 'approval', 'count': ['1', '2'], 'nom': basic},
+         [{'f': []}, {'f': [S(0)]}, {'f': [S(0), S(1)]}, {'f': [S(0), S(1), S(2)]}, {'t': [S(0)]}, {'f': [S(0), B0]}]),
+        ({'vt': 'ranked', 'total': ['1', '3'], 'rank': None, 'nom': basic},
+         [{'t': []}, {'t': [S(0)]}, {'t': [S(0), S(1)]}, {'t': [S(0), S(0)]}, {'t': [{'f': [S(0), S(1)]}]}, {'t': [S(0), N(1)]}]),
+        ({'vt': 'enum', 'n': [None, '2'], 'sum': {'all': [None, '3']}, 'nom': basic, 'levels': [N(1), N(2), S(6)]},
+         [{'f': []}, {'f': [{'t': [S(0), N(1)]}]}, {'f': [{'t': [S(0), N(2)]}, {'t': [S(1), N(2)]}]}, {'f': [{'t': [S(0), N(3)]}]},
+          {'f': [{'t': [S(0), S(6)]}]}, {'f': [{'t': [B0, N(1)]}]}]),
+        ({'vt': 'range', 'n': [None, '2'], 'sum': {'all': [None, None]}, 'nom': basic, 'range': ['0', '2']},
+         [{'f': []}, {'f': [{'t': [S(0), N(1)]}]}, {'f': [{'t': [S(0), N(3)]}]}, {'f': [{'t': [S(0), S(6)]}]},
+          {'f': [{'t': [S(0), N(2)]}, {'t': [S(0), N(1)]}]}, {'f': [S(0)]}]),
+    ]
+    for val, pool in pools:
+        for k in (1, 2, 3):
+            for combo in itertools.permutations(range(len(pool)), k):
+                yield {'op': 'eliminate', 'val': val, 'votes': [[pool[i], str(i + 1)] for i in combo],
+                       '_tags': ['exhaustive', 'exhaustive_eliminate']}
 
 
 def generate(rng, tier):
